@@ -75,6 +75,7 @@ type Known struct {
 	Wild     string            `json:"wildcards_justified,omitempty"`
 	Witness  string            `json:"witness,omitempty"`
 	Commit   string            `json:"commit,omitempty"`
+	Steer    string            `json:"steer,omitempty"` // "always": never issue the situation in multi-step histories
 	re       map[string]*regexp.Regexp
 }
 
